@@ -1,5 +1,5 @@
 use bytes::{Buf, BufMut};
-use std::{convert::TryInto, fmt, io::Cursor, num::TryFromIntError};
+use std::{fmt, io::Cursor, num::TryFromIntError};
 
 #[cfg(feature = "tracing")]
 use tracing::trace;
@@ -131,7 +131,7 @@ impl Decoder {
         }
 
         if self.table.total_inserted() != inserted_on_start {
-            InsertCountIncrement((self.table.total_inserted() - inserted_on_start).try_into()?)
+            InsertCountIncrement((self.table.total_inserted() - inserted_on_start) as u64)
                 .encode(write);
         }
 
